@@ -1,7 +1,12 @@
 """C11 — a cache file cut off at any byte is harmless.
 
 Proof: Props/C11.v (repaired loadcache: failed load = miss; pinned: C11_refuted).
-K / oracle: fault enumeration on the REAL code, exhaustive over prefix lengths."""
+K / oracle: fault enumeration on the REAL code, exhaustive over prefix lengths.
+Schedules: (a) gate schedules of 2-3 requests in threads of the driver (c14_sched); (b) `c11_race`: a reader racing a
+truncating writer, the requests served by a PROCESS OF THEIR OWN (forked driver), the writer's step placed at EVERY
+point of the reader's load (each line / C call of handlers/dir.py, vfs.stat/open, each read/peek of the opened cache
+file), so that a reader killed by a signal (e.g. SIGBUS on a mapping of the truncated file) is seen as what its client
+sees: no reply.  Tags reader-racing-writer:{process-died,hang,empty-reply,wrong-answer}."""
 import io
 import json
 import zipfile
@@ -106,6 +111,33 @@ def zip_job(rng, activated, tier="quick"):
             "activated": activated, "activated_stride": 1 if tier == "thorough" else 9}
 
 
+def race_job(rng, size, tier):
+    """A reader racing a truncating writer (three real requests served by a process of their own), the writer's
+    step placed at every point of the reader's load.  `size`: "small" (cache file within one buffer or two) or
+    "large" (the load spans several reads of the file)."""
+    keys = [x[0] for x in c10.PROTOKEYS]
+    if size == "small":
+        tree = gen_tree(rng, 1)
+    else:
+        tree = [{"path": "d", "kind": "dir"}]
+        t = c10.T0
+        for i in range(rng.randrange(70, 110)):
+            t += 3
+            nm = "%s-%03d.%s" % (rng.choice(["report", "x", "Notes of the meeting", "img"]), i, rng.choice(["txt", "html", "gif", "bin"]))
+            tree.append({"path": "d/" + nm, "data": "<title>T%d</title>" % i + "y" * rng.randrange(0, 50), "mtime": t})
+            if rng.random() < 0.2:
+                tree.append({"path": "d/" + nm + ".abstract", "data": "abstract %d\n" % i * rng.randrange(1, 4)})
+        tree.append({"path": "d/.names", "data": "Path=./%s\nName=%s\nNumb=1\n" % (tree[3]["path"][2:], rng.choice(c10.TITLES))})
+    thorough = tier == "thorough"
+    extra = []
+    for _ in range(40 if thorough else 5):
+        extra.append(["full", rng.randrange(0, 60), 0])
+    for _ in range(60 if thorough else 5):
+        extra.append(["mixed", rng.randrange(0, 60), rng.randrange(1, 12)])
+    return {"op": "c11_race", "tree": tree, "protokeys": c10.protokeys(), "keys": [rng.choice(keys) for _ in range(4)],
+            "life": 180, "size": size, "max_trunc": 10 ** 6, "extra": extra}
+
+
 def coq_cases(res, rep):
     """One case per distinct outcome class observed for this directory."""
     cases = []
@@ -138,6 +170,15 @@ def run(tier):
     chk = Check("C11", tier)
     chk.proofs(extra_files=["Corr/K10.v", "Corr/K14.v"])
     rng = chk.rng
+    # ---- a reader racing a truncating writer, in a process of their own (runs beside the other legs) ----
+    import concurrent.futures
+    import random
+    rrng = random.Random("C11-race-%s" % chk.seed)
+    race_base = [race_job(rrng, "small", tier), race_job(rrng, "large", tier)] + \
+                ([race_job(rrng, sz, tier) for sz in ("small", "large", "small")] if tier == "thorough" else [])
+    race_jobs = [dict(j, mod=[k, r]) for j in race_base for k in ((2 if j["size"] == "small" else 4),) for r in range(k)]
+    race_pool = concurrent.futures.ThreadPoolExecutor(max_workers=1)
+    race_future = race_pool.submit(impl_run_parallel, race_jobs, len(race_jobs))
     ndirs = 10 if tier == "thorough" else 2
     S = 3 if tier == "thorough" else 6
     base = [dir_job(rng, k, tier) for k in range(ndirs)]
@@ -284,6 +325,51 @@ def run(tier):
                                                                "being rewritten by request 0 (truncated, not yet written)", i,
                                                                d["detail"][i]["response_head_latin1"] or "EMPTY reply"),
                            "schedule": j["sched"], "gate_trace": d["gate_trace"], "requests": d["detail"], "job": j}, tag=tag)
+    # ---- the reader racing a writer, every point of the reader's load ----
+    race_res = race_future.result()
+    race_pool.shutdown()
+    race = {"directories": len(race_base), "processes": 0, "reader_points": [], "cache_file_sizes": [], "by_mode": {}, "bad_answers": 0,
+            "writer_step_did_not_change_the_file": 0, "reader_gate_labels_example": None}
+    seen_race = set()
+    for ji, (j, r) in enumerate(zip(race_jobs, race_res)):
+        if not r["ok"]:
+            raise RuntimeError(r["err"] + "\n" + r.get("tb", ""))
+        d = r["res"]
+        race["processes"] += d["runs"] + 1
+        race["writer_step_did_not_change_the_file"] += d["vacuous"]
+        if j["mod"][1] == 0:
+            race["reader_points"].append(d["reader_points"])
+            race["cache_file_sizes"].append(d["probe"].get("cache_size"))
+            if race["reader_gate_labels_example"] is None:
+                race["reader_gate_labels_example"] = [x for x in (d["probe"].get("reader_labels") or []) if not x.startswith("line ")]
+        for md, n_ in d["by_mode"].items():
+            race["by_mode"][md] = race["by_mode"].get(md, 0) + n_
+        for n_ in range(d["runs"]):
+            chk.count(("race", j["size"], ji, n_), nontrivial=d["runs"] > d["vacuous"])
+        for md, jj, mm, what in d["bad"]:
+            race["bad_answers"] += 1
+            found = True
+            who, cls = what.split(":")
+            tag = "reader-racing-writer:" + {"process-died": "process-died", "hang": "hang", "empty": "empty-reply",
+                                            "wrong": "wrong-answer"}[cls]
+            if tag in seen_race:
+                continue
+            seen_race.add(tag)
+            ex = next((e for e in d["examples"] if (e.get("plan") or {}).get("j") == jj and (e.get("plan") or {}).get("mode") == md),
+                      (d["examples"] or [None])[0])
+            chk.violation({"what": "a reader racing a writer (cache file of %s bytes, complete and fresh when the reader starts): the writer's "
+                                   "%s lands after the reader has passed %s of its %s observable steps (reader then at: %s): %s"
+                                   % (d["probe"].get("cache_size"), {"trunc": "open-for-writing (file cut to 0 bytes, nothing written yet)",
+                                                                     "full": "complete rewrite", "mixed": "open-for-writing, its write a little later",
+                                                                     "probe": "step (after the reader has finished)"}[md],
+                                      jj, d["reader_points"], (ex or {}).get("reader_at"),
+                                      {"process-died": "the process serving the requests dies (%s): the client gets no reply"
+                                                       % (ex or {}).get("process"),
+                                       "hang": "the requests never finish", "empty": "the %s's client gets an EMPTY reply" % who,
+                                       "wrong": "the %s's client gets a listing that differs from the cacheless one" % who}[cls]),
+                           "failing": d["bad"][:20], "example": ex,
+                           "job": dict({k: v for k, v in j.items() if k != "mod"}, only=[{"mode": md, "j": jj, "m": mm}] if md != "probe" else [])},
+                          tag=tag)
     # ---- two requests for the same ZIP archive, one rebuilding the stored index while the other looks things up ----
     zbase = zip_job(rng, activated=False, tier=tier)
     zsel = {}
@@ -339,6 +425,11 @@ def run(tier):
                              "errors": [e for e in (err,) if e], "implementation_behaves_as_model_variant": behaves,
                              "mismatches_against_pinned_variant": len(mism_p)}
     cov["concurrent_readers"] = conc
+    cov["reader_racing_writer"] = dict(race, note="three real requests per process (a forked copy of the driver): W finds no cache file and is held "
+                                       "before the first thing it does to the directory; W0 writes the complete file; the reader R is advanced k steps "
+                                       "(every line and C call of handlers/dir.py, vfs.stat/open of the cache file, every read/peek of the opened file), "
+                                       "for EVERY k; then W takes its step (unchanged code: open 'wb' = cut to 0 bytes), R runs on, W runs on, one more "
+                                       "request.  Oracle: the process exits normally, all four replies equal the cacheless listing")
     cov["zip_index_concurrent"] = dict(zs, note="requests for the same archive paused at every access to the stored index (shelve.open, "
                                               "each record written, each record read from a stored index); 9 schedules in which the second "
                                               "request is 0..8 steps into recreating the index while the first continues, plus random ones; "
@@ -368,6 +459,8 @@ def run(tier):
                    "server process serves a listing and is SIGKILLed after k bytes of the cache file (whatever else it had created "
                    "stays behind), then two requests with a 4 s limit each; deterministic schedules of 2-3 concurrent requests that all observe the same cut-off file (5 cut "
                    "points) or a writer that has truncated but not written, compared with Model/Conc.v and the sequential answer; "
+                   "a reader racing a truncating writer in a process of their own, the writer's step at every point of the reader's "
+                   "load (see reader_racing_writer); "
                    "same enumeration over the three ZIP index cache files; non-trivial = every such request")
     chk.sample({"kind": "directory", **{k: v for k, v in per_dir[0].items() if k != "pickle"}})
     if cmism or cerr:
@@ -399,6 +492,15 @@ def replay(path):
     if job.get("op") == "c14_sched":
         import c14
         return c14.replay(path)
+    if job.get("op") == "c11_race":
+        r = impl_run([job])[0]
+        if not r["ok"]:
+            print(r["err"])
+            return 2
+        d = r["res"]
+        print(json.dumps({k: d.get(k) for k in ("bad", "runs", "reader_points")}), json.dumps(d.get("examples", [])[:1], indent=1)[:3000])
+        print("REPRODUCED" if d["bad"] else "not reproduced")
+        return 1 if d["bad"] else 0
     if job.get("op") == "c11_zip_sched":
         r = impl_run([job])[0]
         if not r["ok"]:
